@@ -123,7 +123,7 @@ def cases(tier):
     # old files that are NOT small: 132 properties (44 per section, three sections), large integer values
     for ver in ([1, 0, 0], [1, 1, 0]) if tier == "thorough" else ([1, 0, 0],):
         for extra in ("mixed", "none"):
-            yield {"k": "file", "cfg": {"ver": ver, "id": False, "forest": 3, "nprops": 44, "extra": extra, "nalias": 1, "many": True}, "pairs": False}
+            yield {"k": "file", "cfg": {"ver": ver, "id": False, "forest": 3, "nprops": 44, "extra": extra, "nalias": 1, "many": True}, "pairs": False, "dense": tier == "thorough"}
     yield {"k": "current"}
 
 
@@ -392,7 +392,8 @@ def run_file(case, r):
         plans = [(k,) for k in range(1, n + 1)]
         if cfg.get("many"):
             # files with well over a hundred properties: interruption points around every tenth step and around 100 / 128
-            plans = [(k,) for k in range(1, n + 1) if k % 10 == 0 or k in (1, 2, 99, 100, 101, 102, 127, 128, 129, n - 1, n)]
+            keep = {1, 2, 50, 99, 100, 101, 128, 129, n - 1, n} if not case.get("dense") else set(range(1, n + 1, 5)) | {99, 100, 101, 127, 128, 129, n - 1, n}
+            plans = [(k,) for k in range(1, n + 1) if k in keep]
         elif case["pairs"]:
             plans += [(k, j) for k in range(1, n + 1) for j in range(1, n - k + 3)]
         for plan in plans:
